@@ -131,7 +131,11 @@ def replay(case):
         try:
             if src == 'A' and scn['cert']:
                 mds.http = FakeHttp(docs['A'].encode('utf-8'))
-                mds.load('remote', url='https://md.verif.example/fedA.xml', cert=env.certfile('kMd'))
+                if scn.get('via') == 'imp':
+                    mds.imp([{'class': 'saml2_tophat.mdstore.MetaDataExtern',
+                              'metadata': [('https://md.verif.example/fedA.xml', env.certfile('kMd'))]}])
+                else:
+                    mds.load('remote', url='https://md.verif.example/fedA.xml', cert=env.certfile('kMd'))
             elif src == 'B' and scn.get('bLoose'):
                 mds.http = FakeHttp(docs['B'].encode('utf-8'))
                 mds.load('remote', url='https://md.verif.example/fedB.xml', check_validity=False)
